@@ -4,12 +4,18 @@ package strings
 import (
 	"strings"
 	"unicode"
+	"unicode/utf8"
 )
 
 func ToLowerCamel(s string) string {
 	i := 0
-	for i < len(s) && unicode.IsUpper(rune(s[i])) {
-		i++
+	for i < len(s) {
+		// decode runes: a multi-byte upper-case letter (É) is one letter, not bytes to be cut apart
+		r, size := utf8.DecodeRuneInString(s[i:])
+		if !unicode.IsUpper(r) {
+			break
+		}
+		i += size
 	}
 
 	return strings.ToLower(s[:i]) + s[i:]
